@@ -34,7 +34,7 @@ import (
 //	auto <val> <s|b|o> <data> <encJSON> <encXML> <encMarshal> <script>
 //	end
 //
-// <val> is a value spec (s:hex, b:hex, m:hex-json, t:hex-json, n:int, u:kind, nil); <enc> is what the stdlib
+// <val> is a value spec (s:hex, b:hex, m:hex-json, x:hex-json (a rux.M), t:hex-json, n:int, u:kind, nil); <enc> is what the stdlib
 // encoder says about it (hex without json's trailing newline, or `err`) — computed by the generator with the
 // real encoders, which are parameters of the model.
 //
@@ -112,6 +112,16 @@ func decodeVal(spec string) (v any, ok bool) {
 			return nil, false
 		}
 		var m map[string]any
+		if json.Unmarshal([]byte(s), &m) != nil {
+			return nil, false
+		}
+		return m, true
+	case "x": // a rux.M (the map type the documentation uses for ad-hoc payloads)
+		s, ok := unhx(rest)
+		if !ok {
+			return nil, false
+		}
+		var m rux.M
 		if json.Unmarshal([]byte(s), &m) != nil {
 			return nil, false
 		}
@@ -1142,6 +1152,32 @@ func roundTrip(name, spec string, body []byte, f []string) string {
 			if got != x {
 				return fmt.Sprintf("xml of %q decodes to %q", x, got)
 			}
+		case rux.M:
+			// whatever an XML helper sends for a map without reporting an error has to be a well-formed document
+			d := xml.NewDecoder(bytes.NewReader(payload))
+			for {
+				_, err := d.Token()
+				if err == io.EOF {
+					break
+				}
+				if err != nil {
+					return fmt.Sprintf("xml of %v is not a well-formed document: %v (%q)", x, err, payload)
+				}
+			}
+			var probe struct {
+				XMLName xml.Name
+				Inner   []byte `xml:",innerxml"`
+			}
+			if len(payload) > 0 && xml.Unmarshal(payload, &probe) != nil {
+				return fmt.Sprintf("xml of %v does not decode (%q)", x, payload)
+			}
+			if len(payload) > 0 {
+				for k, val := range x {
+					if val == nil && !bytes.Contains(payload, []byte(k)) {
+						return fmt.Sprintf("xml of %v lost the key %q without an error (%q)", x, k, payload)
+					}
+				}
+			}
 		case rT:
 			for _, s := range tStrings(x) {
 				if !xmlSafe(s) || strings.Contains(s, "\r") {
@@ -1302,6 +1338,20 @@ func rValue(r *Rand) string {
 		}
 		b, _ := json.Marshal(t)
 		return "t:" + hx(string(b))
+	case x < 16 && r.Bool():
+		m := map[string]any{}
+		for i, n := 0, r.Range(1, 3); i < n; i++ {
+			var v any = r.Pick([]string{"tom", "", "a b", "<x>"})
+			switch r.Intn(4) {
+			case 0:
+				v = nil
+			case 1:
+				v = r.Intn(100)
+			}
+			m[r.Pick([]string{"name", "full name", "k1", "1x", "a-b", "<k>", "é"})] = v
+		}
+		b, _ := json.Marshal(m)
+		return "x:" + hx(string(b))
 	case x < 16:
 		return fmt.Sprintf("n:%d", r.Range(-3, 100000))
 	case x < 17:
